@@ -32,11 +32,30 @@ def run(shard):
     import decode_oracles as D
     cdm = H.import_repo()
 
+    seen_ops = set()
+
     def on_decoded(code, cd, case, report):
         colines = H.colines_lookup(code) if H.IS310 else None
         n = D.check_instructions(code, cd, cdm, report, colines)
         H.count("evaluations", n)
+        b = code.co_code
+        for opc in set(b[::2]):
+            seen_ops.add(opc)
         if D.nontrivial_code(code):
             H.distinct(H.code_key(code))
 
     D.drive(shard, "C02", on_decoded, "C02.instructions", variants=3)
+    import dis
+    H.emit({"t": "opcodes", "interp": H.PYTAG, "seen": sorted(dis.opname[o] for o in seen_ops),
+            "all": sorted(n for n in dis.opmap if not n.startswith("<"))})
+
+
+def offline(ctx, results):
+    seen, allops = {}, {}
+    for r in results:
+        for rec in r["records"]:
+            if rec.get("t") == "opcodes":
+                seen.setdefault(rec["interp"], set()).update(rec["seen"])
+                allops[rec["interp"]] = set(rec["all"])
+    return {"extra": {"opcodes_seen_per_interpreter": dict((v, len(s)) for v, s in sorted(seen.items())),
+                      "opcodes_never_seen": dict((v, sorted(allops[v] - seen[v])) for v in sorted(seen))}}
